@@ -31,12 +31,12 @@ class C08CountingBloom(Scenario):
             # several hundred look-ups of other keys between two operations of the history
             return {"op": "noise", "cnt": rng.choice((300, 520, 1100)), "tag": self.n_gen}
         if r < 45 or not present and r < 70:
-            return {"op": "add", "k": rng.below(u), "n": rng.weighted([(5, 1), (3, 2), (1, 9), (1, 1000)])}
+            return {"op": "add", "k": rng.below(u), "n": rng.weighted([(10, 1), (6, 2), (2, 9), (2, 1000), (1, 2**31), (1, 3_000_000_000)])}
         if r < 70:
             k = rng.choice(present)
             return {"op": "remove", "k": k, "n": rng.between(1, self.out[k])}
         if r < 90:
-            return {"op": "bracket", "adds": [[rng.below(u + 2), rng.weighted([(4, 1), (2, 3), (1, 70000)])]
+            return {"op": "bracket", "adds": [[rng.below(u + 2), rng.weighted([(8, 1), (4, 3), (2, 70000), (1, 2**31 - 1), (1, 3_000_000_000)])]
                                               for _ in range(rng.between(1, 5))]}
         return {"op": "remove_absent", "k": rng.below(u + 6)}
 
@@ -63,12 +63,30 @@ class C08CountingBloom(Scenario):
         pos = [hs[i] % self.m for i in range(self.k)]
         return len(set(pos)) < len(pos)
 
+    def would_saturate(self, adds):
+        """the statement speaks about histories below the saturation limit: would these additions bring a cell to it?"""
+        import struct as _struct
+
+        b = bytes(self.o)[:-20]
+        cells = list(_struct.unpack(f"{len(b) // 4}I", b))
+        for k, n in adds:
+            hs = common.hashes_of(self.env.hf, seams.key_of(k), self.k)
+            for i in range(self.k):
+                cells[hs[i] % self.m] += n
+        return max(cells) >= 2**32 - 1 or sum(n for _, n in adds) + self.o.elements_added >= 2**63
+
     def apply(self, step):
         ctx = self.ctx
         o = self.o
         op = step["op"]
         ctx.count("op." + op)
         sig = {"class": "CountingBloomFilter", "op": op}
+        if op == "add" and step["n"] > 100000 and self.would_saturate([(step["k"], step["n"])]):
+            return "skip"
+        if op == "bracket" and any(n > 100000 for _, n in step["adds"]) and self.would_saturate(step["adds"]):
+            return "skip"
+        if op in ("add", "bracket") and any(n > 100000 for _, n in ([(0, step["n"])] if op == "add" else step["adds"])):
+            ctx.fault("amount_above_2^31")
         if op == "add":
             structs.api_add(o, seams.key_of(step["k"]), step.get("alt"), n=step["n"])
             self.out[step["k"]] = self.out.get(step["k"], 0) + step["n"]
